@@ -4,6 +4,7 @@
 
 mod c01;
 mod c10;
+mod c11;
 mod cfgmut;
 mod common;
 mod defs;
@@ -55,6 +56,7 @@ fn main() {
 		"C04" => dispatch!(defs::DefCheck { id: "C04", suts: defs::C04_SUTS }, args),
 		"C14" => dispatch!(defs::DefCheck { id: "C14", suts: defs::C14_SUTS }, args),
 		"C10" => dispatch!(c10::C10, args),
+		"C11" => dispatch!(c11::C11, args),
 		"C09" => dispatch!(sched::SchedCheck { id: "C09" }, args),
 		"C13" => dispatch!(sched::SchedCheck { id: "C13" }, args),
 		"selfcheck-determinism" => {
